@@ -20,7 +20,7 @@ func init() {
 			ruleX6(c)
 			ruleM6(c) // the table mux.Close walks holds every open connection: a stale handle cannot unregister a live one
 		},
-		explanation: "Decides the fail-stop structure of the multiplexer: every exit of the reader loop other than the one taken on the done channel is preceded on every path by latching the error and closing the mux (including the queue-overflow branch), and a partially written frame does the same in write; every close() of a channel stored in a struct field of the net and multiplex packages runs inside a sync.Once body or under a lock behind a test-and-set flag; every blocking receive of those packages has a channel that some close path closes (a connection's Read selects on its done channel, which conn.close closes, which mux.Close calls for every registered connection; Accept's channel is closed by Close); Write tests the done channel before writing, the first error is latched once and error() never yields nil; closing the mux is never reachable with its own once or the connection lock already held.",
+		explanation: "Decides the fail-stop structure of the multiplexer: every exit of the reader loop other than the one taken on the done channel is preceded on every path by latching the error and closing the mux (including the queue-overflow branch), and a partially written frame does the same in write; every close() of a channel stored in a struct field of the net and multiplex packages runs inside a sync.Once body or under a lock behind a test-and-set flag; every blocking receive of those packages has a channel that some close path closes (a connection's Read selects on its done channel, which conn.close closes, which mux.Close calls for every registered connection; Accept's channel is closed by Close); Write tests the done channel before writing, the first error is latched once and error() never yields nil; closing the mux is never reachable with its own once or the connection lock already held. The listener's closed flag is read under the same exclusive lock the close is made under; conn.Close unregisters only itself, so mux.Close reaches every open connection.",
 		notDecided: []string{
 			"promptness as time",
 			"that a truncated frame makes io.ReadFull fail (standard library)",
